@@ -573,6 +573,11 @@ FRAMES = [   # (source, expected text): empty arguments of macros that parse wit
     ('\\documentclass{article}\\usepackage[]{ifthen}\\def\\zzA{A}\\begin{document}x\\zzA y\\end{document}', 'xAy'),
     ('\\def\\zzA{A}\\ifx{}{}s\\else d\\fi\\def\\zzB{B}{\\zzA\\zzB}\\zzA\\zzB', 'sABAB'),
     ('\\documentclass[]{article}\\begin{document}\\section{}\\textbf{}\\def\\zzA{A}{\\zzA}\\zzA\\end{document}', 'AA'),
+    # the character directly after the control word that closes a group is read with the table of the outer group
+    ('\\def\\zzA{A}\\begingroup\\catcode`\\%=12\\relax a\\endgroup% c\n\\zzA', 'aA'),
+    ('\\def\\zzA{A}\\begingroup\\catcode`\\~=12\\relax a\\endgroup~\\zzA', 'aA'),
+    ('\\def\\zzA{A}\\bgroup\\catcode`\\%=12\\relax a\\egroup% c\n\\zzA', 'aA'),
+    ('\\def\\zzA{A}\\begingroup\\catcode`\\@=11\\relax\\def\\zz@{W}\\endgroup\\zz@\\zzA', '@A'),
     # definitions local to an environment: inside eqnarray / align, \\\\ is the row end that steps the equation counter -- also when
     # an environment of the base class (eqnarray*) was used before it (the innermost live definition wins)
     ('\\documentclass{article}\\begin{document}\\begin{eqnarray*}a&=&b\\end{eqnarray*}\\begin{eqnarray}c&=&d\\\\ e&=&f\\end{eqnarray}'
